@@ -304,6 +304,8 @@ def gen(rng, focus, k=None, maxops=40):
                 g.emit(f"delete-topic 0 #{rng.randint(1, 3)} {g.ident(0, '', valid=False)}")
     if k is not None and k % 4 == 1:
         cascade(g, rng)
+    if k is not None and k % 4 == 3:
+        offsets_cascade(g, rng)
     g.observe(full=True)
     return cfg, g.ops
 
@@ -350,3 +352,66 @@ def cascade(g, rng):
     for s in (s1, s2):
         if not (0.5 <= how < 0.75 and s == victim[0]):
             g.streams[s] = {"name": f"q{s}", "topics": {}, "tguess": 1}
+
+
+def offsets_cascade(g, rng):
+    """Stored offsets of consumers and of groups with the SAME numeric ids in one topic; a group, a topic or a
+    partition is deleted (and the group re-created under the freed id): the deleted entity's offsets are gone,
+    everybody else's are untouched, a re-created group starts without an offset - also after a restart."""
+    s = 30 + rng.randint(0, 5)
+    g.emit(f"create-stream 0 {s} o{s}")
+    nparts = rng.randint(1, 3)
+    g.emit(f"create-topic 0 #{s} 1 ot {nparts} never unlimited -")
+    g.emit(f"create-topic 0 #{s} 2 ot2 1 never unlimited -")
+    g.clock += 10
+    g.emit(f"clock {g.clock}")
+    for p in range(1, nparts + 1):
+        ms = ",".join(f"{70000 + 100 * p + i}:20:{900 + i}:0" for i in range(rng.randint(4, 9)))
+        g.emit(f"send 0 #{s} #1 pid:{p} {ms}")
+    g.emit(f"send 0 #{s} #2 pid:1 " + ",".join(f"{80000 + i}:20:{950 + i}:0" for i in range(5)))
+    groups = [1, 2] if rng.random() < 0.7 else [1, 2, 3]
+    for gid in groups:
+        g.emit(f"create-group 0 #{s} #1 {gid} og{gid}")
+    g.emit(f"create-group 0 #{s} #2 1 og1")
+    idents = [f"c:#{i}" for i in (1, 2, 3)] + [f"g:#{i}" for i in groups]
+
+    def observe():
+        for p in range(1, nparts + 1):
+            for c in idents:
+                g.emit(f"get-offset 0 #{s} #1 {p} {c}")
+        g.emit(f"get-offset 0 #{s} #2 1 c:#1")
+        g.emit(f"get-offset 0 #{s} #2 1 g:#1")
+    for _ in range(rng.randint(4, 10)):
+        p = rng.randint(1, nparts)
+        g.emit(f"store-offset 0 #{s} #1 {p} {rng.choice(idents)} {rng.randint(0, 3)}")
+    g.emit(f"store-offset 0 #{s} #2 1 c:#1 2")
+    g.emit(f"store-offset 0 #{s} #2 1 g:#1 1")
+    observe()
+    how = rng.random()
+    if how < 0.5:
+        gid = rng.choice(groups)
+        g.emit(f"delete-group 0 #{s} #1 #{gid}")
+        observe()
+        g.emit(f"create-group 0 #{s} #1 {rng.choice(['-', str(gid)])} again")
+        observe()
+    elif how < 0.7 and nparts > 1:
+        g.emit(f"delete-parts 0 #{s} #1 1")
+        nparts -= 1
+        observe()
+        g.emit(f"create-parts 0 #{s} #1 1")
+        nparts += 1
+        observe()
+    elif how < 0.85:
+        g.emit(f"delete-topic 0 #{s} #2")
+        for p in range(1, nparts + 1):
+            for c in idents:
+                g.emit(f"get-offset 0 #{s} #1 {p} {c}")
+        g.emit(f"create-topic 0 #{s} 2 ot2 1 never unlimited -")
+        observe()
+    else:
+        g.emit(f"purge-topic 0 #{s} #1")
+        observe()
+    if rng.random() < 0.6:
+        g.emit("restart")
+        observe()
+    g.streams[s] = {"name": f"o{s}", "topics": {}, "tguess": 1}
